@@ -92,11 +92,11 @@ def gen_scenario(rng, kind=None):
             if rng.random() < 0.5 and v != 0:
                 j = rng.randint(2, 12)
                 vals[i] = v * (1 - Fr(1, 2 ** j))          # relative step: |a-b| = 2^-j * max(|a|,|b|)
-                tol_hints.append((f[0], "rel", Fr(1, 2 ** j)))
+                tol_hints.append((f[0], "rel", Fr(1, 2 ** j), abs(v)))
             else:
                 d = Fr(1, 2 ** rng.randint(0, 10))
                 vals[i] = v + rng.choice([-1, 1]) * d
-                tol_hints.append((f[0], "abs", d))
+                tol_hints.append((f[0], "abs", d, max(abs(v), abs(vals[i]))))
             sc["edits"].append([e, side, f[0], i])
         elif e == "perturb_int":
             il = [f for f in fields if f[1] in ("int", "Int32", "Int64", "str")]
@@ -145,13 +145,22 @@ def gen_scenario(rng, kind=None):
         for side in ("res", "ref"):
             sides[side]["permuted"] = rng.random() < 0.5
             sides[side]["pseed"] = rng.randrange(2 ** 30)
+        if rng.random() < 0.2:
+            sides[rng.choice(["res", "ref"])]["as2d"] = True      # one side stored with two coordinates per point (.xdmf)
     sc["res"], sc["ref"] = sides["res"], sides["ref"]
     # ---- options
     o = {"rtol": [], "atol": [], "include": None, "exclude": None, "ign_src": rng.random() < 0.3, "ign_ref": rng.random() < 0.3,
          "no_reorder": kind == "vtu" and rng.random() < 0.15}
     bases = sorted({f[0] for s in ("res", "ref") for f in (sides[s]["cols"] if kind == "csv" else sides[s]["pf"] + sides[s]["cf"])})
     small = kind == "vtu"      # keep domain tolerances far below the lattice spacing
-    for (fname, which, val) in tol_hints:
+    for (fname, which, val, mag) in tol_hints:
+        if rng.random() < 0.15 and mag > 0:
+            # both tolerances non-zero and each 3/4 of the deviation: the deviation exceeds their maximum (fails) although it is
+            # below their sum
+            dev = val * mag if which == "rel" else val
+            o["rtol"].append([fname, repr(float(Fr(3, 4) * dev / mag)), False])      # (nearest float; far from any boundary)
+            o["atol"].append([fname, repr(float(Fr(3, 4) * dev)), False])
+            continue
         val = val * rng.choice([1, 1, Fr(1, 2), 2])
         target = rng.choice(["field", "field", "global", "other", "max"])
         if small and target == "global" and val > Fr(1, 1024):
@@ -168,7 +177,7 @@ def gen_scenario(rng, kind=None):
             o["atol"].append([fname, str_of(base), True])
     # a per-field tolerance of exactly zero must override a non-zero global one
     if tol_hints and rng.random() < 0.3:
-        fname, which, val = rng.choice(tol_hints)
+        fname, which, val, _mag = rng.choice(tol_hints)
         key = "rtol" if which == "rel" else "atol"
         if not (small and val * 4 > Fr(1, 1024)):
             o[key].append([None, str_of(val * 4), False])
@@ -234,6 +243,26 @@ def write_side(path_base, kind, D, state, rng_seed):
     pts, cells, pf, cf = written_mesh(D, rng_seed)
     pf = [(n, t, c, [float(v) if t.startswith("Float") else v for v in vals]) for n, t, c, vals in pf]
     cf = [(n, t, c, [float(v) if t.startswith("Float") else v for v in vals]) for n, t, c, vals in cf]
+    if D.get("as2d") and all(p[2] == 0 for p in pts):
+        # the same data set stored with two coordinates per point in a format read through meshio (.xdmf): against a .vtu
+        # (three coordinates) the space dimensions have to be matched, on top of any reordering
+        import meshio
+        import numpy as np
+        tname = {5: "triangle", 9: "quad"}
+        npdt = {"Float64": np.float64, "Int32": np.int32, "Int64": np.int64}
+        order = []
+        for t, _ in cells:
+            if t not in order:
+                order.append(t)
+        idx = {t: [i for i, (tt, _) in enumerate(cells) if tt == t] for t in order}
+        mesh = meshio.Mesh(
+            points=np.array([[float(p[0]), float(p[1])] for p in pts]),
+            cells=[(tname[t], np.array([cells[i][1] for i in idx[t]], dtype=np.int64)) for t in order],
+            point_data={n: np.array(vals, dtype=npdt[t]).reshape((len(pts),) if c == 1 else (len(pts), c)) for n, t, c, vals in pf},
+            cell_data={n: [np.array([vals[i] for i in idx[tt]], dtype=npdt[t]) for tt in order] for n, t, c, vals in cf})
+        path = path_base + ".xdmf"
+        meshio.write(path, mesh, data_format="XML")
+        return path
     cfg = V.Cfg(random.Random(rng_seed).choice(["ascii", "binary", "appended-base64"]))
     V.write_vtu(path, pts, cells, pf, cf, cfg)
     return path
@@ -559,6 +588,9 @@ def run(ctx):
         ctx.case(c, nontrivial, sample={"scenario": c, "impl_exit": im["exit"], "model_exit": mo["exit"], "statement": orc})
         ctx.count(f"kind:{sc['kind']}")
         ctx.count(f"exit:{im['exit']}")
+        if sc["kind"] == "vtu" and (sc["res"].get("as2d") or sc["ref"].get("as2d")):
+            perm = bool(sc["res"].get("permuted")) != bool(sc["ref"].get("permuted")) or bool(sc["res"].get("permuted"))
+            ctx.count(f"mesh: one side stored 2-d (.xdmf){' and reordered' if perm else ''}: exit {im['exit']}")
         for e in sc["edits"]:
             ctx.count(f"edit:{e[0]}")
         ctx.count(f"edits:{len(sc['edits'])}")
@@ -575,7 +607,7 @@ def run(ctx):
         ctx.traces_validated += 1
     ctx.rule = ("ground-truth CSV tables (float/int/str columns) and .vtu meshes edited independently per side (perturbation placed "
                 "relative to the tolerance in play, int/str change, drop/rename field, row count, moved point, permuted mesh, damaged "
-                "file) x option combinations (global / per-field / other-field / *max tolerances, include/exclude, ignore flags, "
+                "file, one side stored with 2-d coordinates in an .xdmf file) x option combinations (global / per-field / other-field / *max tolerances, include/exclude, ignore flags, "
                 "--disable-mesh-reordering); non-trivial = at least one edit and one non-default option")
     return ctx.finish(
         assumptions=["file reading is an oracle: the exception class raised by fieldcompare.io.read on each side is observed and given to the model",
